@@ -249,6 +249,9 @@ func (itr *BrokerBatchShardFamilyIterator) HasNextFamily() bool {
 	timeRange := itr.timeRangeOfTimestamp(firstTimestamp)
 	itr.groupStart = itr.groupEnd
 	itr.groupFamilyTime = itr.familyTimeOfTimestamp(firstTimestamp)
+	// NOTE: first row always belongs to the group which it opens, if its timestamp is out of the family range
+	// which is calculated by it(like -1), the group is empty then all left rows are lost.
+	itr.groupEnd++
 
 	for itr.groupEnd < len(itr.rows) {
 		if !timeRange.Contains(itr.rows[itr.groupEnd].m.Timestamp()) {
